@@ -8,7 +8,7 @@ From Coq Require Import Reals.
 From Interval Require Import Xreal Interval.
 From Flocq Require Import Core.
 From CPL Require Import Model.Base Model.BienExact Model.Bien Proofs.EntropyBounds
-  Proofs.BienExactProofs Proofs.BienProofs.
+  Proofs.BienExactProofs Proofs.BienProofs Corr.C18 Proofs.BienCorrProofs.
 
 (* ---------------------------------------------------------------- exact layer: the derivatives *)
 
@@ -123,6 +123,21 @@ Theorem C18_within_sound : forall enc m e x, contains (I.convert enc) (Xreal x) 
   Rabs (x - IZR m * bpow radix2 e) <= / 2 ^ 30.
 Proof. exact within_ok. Qed.
 
+(* what a passing case of the correspondence check (Corr.C18.check_case itself) means:
+   value case: the guard holds and the returned double m * 2^e is within 2^-30 of the model's real value
+   (value FBien = bien, FTbien = tbien, FKtbien = ktbien); an exception never passes;
+   derivative case: the returned digit strings are exactly the outputs of the model's loops *)
+Theorem C18_check_case_sound :
+  (forall f s m e, check_case (CValue f s (Ok (m, e))) = true ->
+     (2 <= length s)%nat /\
+     Rabs (match f with FBien => bien s | FTbien => tbien s | FKtbien => ktbien s end - IZR m * bpow radix2 e) <= / 2 ^ 30) /\
+  (forall f s x, check_case (CValue f s (Raise x)) = false) /\
+  (forall s op oc, check_case (CDeriv s op oc) = true ->
+     op = Ok (digits (binary_derivative s)) /\ oc = Ok (digits (cyclic_binary_derivative s))).
+Proof.
+  split; [exact check_case_value_sound|]. split; [exact check_case_value_raise|exact check_case_deriv_sound].
+Qed.
+
 (* ---------------------------------------------------------------- non-vacuity *)
 (* the docstring examples of bien.py: '01010101' -> '1111111' and '11111111'; a rotation; a reversal *)
 Example C18_nonvacuous_exact :
@@ -142,11 +157,16 @@ Example C18_nonvacuous_range :
   bien [false; true] = 1 /\ (forall a m, bien (repeat a (S (S m))) = 0) /\ (2 <= length [false; true])%nat.
 Proof. split; [exact bien_01_one|]. split; [exact bien_constant_zero|apply le_n]. Qed.
 
-(* the twin computes: bien('01') = 1.0 = 1 * 2^0 and tbien('0110') = 0x1.5555555555555p-2 (=1/3) are accepted, 0.5 is not *)
+(* the twin computes and discriminates: bien('01') = 1.0 = 1 * 2^0 is accepted, 0.5 is not; the doubles returned by
+   /repo for tbien('0110') = 0x1.123342bb50fe7p-1 (0.5355...) and ktbien('0101') = 0x1.bead76898f8cep-3 (0.2181...)
+   pass the whole check_case, the neighbouring value 0.387... reported for a broken ktbien does not *)
 Example C18_nonvacuous_enclosure :
   within (bienI [false; true]) 1 0 = true /\
-  within (bienI [false; true]) 1 (-1) = false.
-Proof. vm_compute. split; reflexivity. Qed.
+  within (bienI [false; true]) 1 (-1) = false /\
+  check_case (CValue FTbien [false; true; true; false] (Ok (4823781582639079, -53)%Z)) = true /\
+  check_case (CValue FKtbien [false; true; false; true] (Ok (7858035264911566, -55)%Z)) = true /\
+  check_case (CValue FKtbien [false; true; false; true] (Ok (6968920634034848, -54)%Z)) = false.
+Proof. vm_compute. repeat split; reflexivity. Qed.
 
 Print Assumptions C18_derivative_loops_closed_form.
 Print Assumptions C18_binary_derivative_length.
@@ -171,3 +191,6 @@ Print Assumptions C18_tbien_symmetry.
 Print Assumptions C18_ktbien_symmetry.
 Print Assumptions C18_enclosures.
 Print Assumptions C18_within_sound.
+Print Assumptions C18_check_case_sound.
+From CPL Require Import gen.GenFuns_C18 GenProps.GenFunsEquivC18 GenProps.C18Src. (* source tie: gen/GenFuns_C18.v is regenerated from bien.py on every run *)
+Theorem C18_source_tie : (forall s : list bool, src_binary_derivative s = Ok (binary_derivative s)) /\ (forall s : list bool, src_cyclic_binary_derivative s = Ok (cyclic_binary_derivative s)). Proof. exact C18_source_translation_agrees. Qed. Print Assumptions C18_source_tie.
